@@ -403,15 +403,15 @@ def sortKV (l : List (Bytes × Bytes)) : List (Bytes × Bytes) := l.foldl (fun a
 def fileContent (fs : Nat) : Bytes :=
   (List.replicate 60 (List.replicate 9 (if fs = 2 then 98 else 97) ++ [10])).flatten
 
-/-- ctx.go `SendFile` on the response. `App.sendfiles` hands the call the entry of its configuration:
+/-- ctx.go `SendFile` on the response, given the entry `v` that `App.sendfiles` handed the call (for a
+    transparent store that is the entry of its own configuration,
     `sfVal cfg` — the cache is a transparent memo table (`SendFile.lean`: `serve_transparent`, for every
     store any sequence of calls can have produced, given that `compareConfig` compares every field,
     which is a regenerated fact). The fasthttp FS handler serves the file (a byte range when it accepts
     ranges and the request asks for one; gzip when it compresses and the request still carries
     Accept-Encoding, which `SendFile` deletes unless `cfg.Compress`); a status set earlier wins over
     200/206; Cache-Control from the entry; Content-Disposition from the caller's own `Download`. -/
-def sendFile (cfg : SFCfg) (hdr : Nat) (r : Resp) : Resp :=
-  let v := sfVal cfg
+def sendFileWith (v : SFVal) (cfg : SFCfg) (hdr : Nat) (r : Resp) : Resp :=
   let ranged := v.byteRange && hdr == 1
   let content := fileContent v.fs
   { r with
@@ -422,6 +422,10 @@ def sendFile (cfg : SFCfg) (hdr : Nat) (r : Resp) : Resp :=
     contentRange := if ranged then b "bytes 0-3/600" else r.contentRange,
     body := if ranged then content.take 4 else content,
     sent := true }
+
+/-- … with the entry of the call's own configuration (what a transparent store returns; `Store.lean` threads
+    the store itself through the world: `actS`) -/
+def sendFile (cfg : SFCfg) (hdr : Nat) (r : Resp) : Resp := sendFileWith (sfVal cfg) cfg hdr r
 
 /-- one script action. `params`/`flashVis`: what `Params` / the flash readers return in this request;
     `rq`: the request; `pick`: which pooled Redirect `Redirect()` would get. -/
